@@ -105,7 +105,7 @@ def execute(sc, sched):
     if ok:
       judge(sc, run, sim, res)
     if res.outcome == 'violation' or sched.get('seed', 0) % 499 == 0:
-      ta = ac.timer_appends(run, 0) if run.objs else {}
+      ta = ac.source_appends(run, 0) if run.objs else {}
       res.sample = {'client': sc['clients'][0], 'horizon_s': sc['horizon_s'],
                     'cancels': [{k: str(c[k]) for k in ('how', 'form', 'target', 'begin', 'end')} for c in run.cancels],
                     'appends': {k: [(a[0], a[3]) for a in v][:10] for k, v in ta.items()}}
@@ -116,7 +116,7 @@ def execute(sc, sched):
 
 def judge(sc, run, sim, res):
   hor_us = int(sc['horizon_s'] * 1e6)
-  appends = ac.timer_appends(run, 0)
+  appends = ac.source_appends(run, 0)
   o = run.objs[0]
   # which sources does each cancel call cover?  (sources created before the call began)
   cancelled_at = {}     # source index -> (end seq of the first covering cancel, cancel record)
@@ -138,7 +138,7 @@ def judge(sc, run, sim, res):
         continue      # more sources were asked for than can be tracked: a rejection is the documented answer
       res.violate('timed-post-raised', {'exc': s['exc']}, str(s))
       return
-    got = appends.get(s['threads'][0], []) if s['threads'] else []
+    got = appends.get(s['uid'], [])
     desc = 'source #%d %s/%s period=%s times=%s deferred=%s t0=%.3fs' % (si, s['kind'], s['sig'], s['period'], s['times'], s['deferred'], s['t0_us'] / 1e6)
     cal = calendar(s, hor_us)
     if si in cancelled_at:
